@@ -521,6 +521,10 @@ func describe(script []fault) string {
 
 var runCounter int
 
+// executeWatchdog bounds one Execute call in real time (VERIF_EXEC_WATCHDOG_S
+// seconds, default 900). Exceeding it is an infrastructure failure.
+var executeWatchdog = time.Duration(common.EnvInt("VERIF_EXEC_WATCHDOG_S", 900)) * time.Second
+
 // runOne executes one scenario under one fault script on the real stack
 // and logs it as one trace. It returns the storage calls that were made.
 func runOne(t *testing.T, tr *common.Trace, sc *scenario, script []fault) []call {
@@ -595,9 +599,12 @@ func runOne(t *testing.T, tr *common.Trace, sc *scenario, script []fault) []call
 	var o outcome
 	select {
 	case o = <-done:
-	case <-time.After(60 * time.Second):
+	case <-time.After(executeWatchdog):
+		// Real time, so this is never a verdict: the driver fails, which
+		// the check reports as inconclusive (exit 2). One run takes
+		// milliseconds; the limit only ends a genuinely wedged process.
 		tr.Close()
-		t.Fatalf("Execute did not return within 60 s (scenario %+v, script %s)", *sc, describe(script))
+		t.Fatalf("INFRASTRUCTURE: Execute did not return within %s (scenario %+v, script %s)", executeWatchdog, *sc, describe(script))
 	}
 	close(updates)
 	<-updatesDone
